@@ -50,13 +50,14 @@ def Dec.toStringMinPrecision (d : Dec) (minP : Nat) : Str :=
 inductive DecErr | syntax | range
 deriving DecidableEq, Repr
 
-/-- Text → (sign, mantissa, scale) as `parse_str_radix_10` reads it: optional sign, digits, at
-    most one point, at least one digit.  (`_` separators are not modelled.) -/
-def parseDecRaw (s : Str) : Option Dec :=
-  let (neg, r) := match s with
-    | '-' :: r => (true, r)
-    | '+' :: r => (false, r)
-    | r => (false, r)
+/-- leading `-` or `+`. -/
+def stripSign : Str → Bool × Str
+  | '-' :: r => (true, r)
+  | '+' :: r => (false, r)
+  | r => (false, r)
+
+/-- digits, at most one point, at least one digit. -/
+def parseUnsigned (neg : Bool) (r : Str) : Option Dec :=
   let ip := r.takeWhile isDigit
   match r.dropWhile isDigit with
   | [] => if ip.isEmpty then none else some ⟨neg, ofDigits ip, 0⟩
@@ -64,6 +65,11 @@ def parseDecRaw (s : Str) : Option Dec :=
     if fp.all isDigit && !(ip.isEmpty && fp.isEmpty) then some ⟨neg, ofDigits (ip ++ fp), fp.length⟩
     else none
   | _ => none
+
+/-- Text → (sign, mantissa, scale) as `parse_str_radix_10` reads it: optional sign, digits, at
+    most one point, at least one digit.  (`_` separators are not modelled.) -/
+def parseDecRaw (s : Str) : Option Dec :=
+  parseUnsigned (stripSign s).1 (stripSign s).2
 
 /-- `Decimal::from_str` / `from_str_exact` on text whose mantissa and scale fit; a zero never
     carries the sign bit (`Decimal::from_parts`).  Out-of-range text (`range`) is outside the
@@ -77,12 +83,14 @@ def parseDec (s : Str) : Except DecErr Dec :=
 
 /-- Trailing fractional zeros removed: Rust's `==` on `Decimal` is `norm a = norm b`
     (up to the sign bit of zero, which `parseDec` never sets). -/
-def Dec.norm (d : Dec) : Dec :=
-  go d.scale d.mant
-where
-  go : Nat → Nat → Dec
-    | 0, m => ⟨d.neg, m, 0⟩
-    | k + 1, m => if m % 10 = 0 then go k (m / 10) else ⟨d.neg, m, k + 1⟩
+def normGo (neg : Bool) : Nat → Nat → Dec
+  | 0, m => ⟨neg, m, 0⟩
+  | k + 1, m => if m % 10 = 0 then normGo neg k (m / 10) else ⟨neg, m, k + 1⟩
+
+def Dec.norm (d : Dec) : Dec := normGo d.neg d.scale d.mant
+
+/-- Same sign bit and same numeric value (`a.mant / 10^a.scale = b.mant / 10^b.scale`). -/
+def Dec.Same (a b : Dec) : Prop := a.neg = b.neg ∧ a.mant * 10 ^ b.scale = b.mant * 10 ^ a.scale
 
 def Dec.isZero (d : Dec) : Bool := d.mant == 0
 /-- `Pos` constraint: sign positive and not zero. -/
